@@ -172,8 +172,8 @@ def sweeps(rep, T, rng, quick):
     out, meta = [], []
     n = 12 if quick else 60
     for k in range(n):
-        p1 = rng.uniform(0.1e6, 5.0e6)
-        p2 = None if k % 2 == 0 else rng.uniform(0.1e6, p1)
+        p1 = rng.choice([rng.uniform(0.1e6, 5.0e6), rng.uniform(0.1e6, 5.0e6), 0.1e6, 5.0e6])
+        p2 = None if k % 2 == 0 else rng.choice([rng.uniform(0.1e6, 5.0e6), 0.1e6, 5.0e6])        # either order of the two stages
         hs = np.linspace(0.0, 3.5e6, 60 if quick else 200)
         try:
             seq = [int(round(1e6 * float(T.separated_steam_fraction(h, p1, p2)))) for h in hs]
